@@ -1,5 +1,6 @@
 import Brax.Gen.Math
 import Brax.Lemmas.Real
+import Brax.Lemmas.Norm
 import Mathlib.Tactic.Ring
 import Mathlib.Tactic.FieldSimp
 import Mathlib.Tactic.LinearCombination
@@ -426,5 +427,69 @@ theorem rotate_quatRotAxis_axis (a : V3 ℝ) (θ : ℝ) (ha : V3.dot a a = 1) :
   cases a; congr 1 <;> ring
 
 end Real
+
+section Normalize
+
+/-- one component of `jp.allclose(x, 0)` as the jaxpr spells it -/
+theorem isclose_comp_iff (x : ℝ) :
+    (eqR x 0 || decide (absv (x - 0) ≤ (1e-8 : ℝ) + (1e-5 : ℝ) * absv 0)) = decide (absv x ≤ (1e-8 : ℝ)) := by
+  have h0 : absv (0 : ℝ) = 0 := by simp
+  rw [h0, mul_zero, add_zero, sub_zero]
+  by_cases h : absv x ≤ (1e-8 : ℝ)
+  · rw [decide_eq_true h, Bool.or_true]
+  · simp only [h, decide_false, Bool.or_false]
+    rw [Bool.eq_false_iff]
+    intro hc
+    rw [eqR_iff] at hc
+    apply h; rw [hc]; simp; norm_num
+
+/-- **bridge**: the generated `normalize` (quaternion shape) is the hand model used by the
+physics properties -/
+theorem bridge_normalize4 (q : Q4 ℝ) : Gen.normalize4 q = Brax.normalize4 q := by
+  simp only [Gen.normalize4, isclose_comp_iff]
+  have hcond : ((decide (absv q.w ≤ (1e-8 : ℝ)) && decide (absv q.x ≤ (1e-8 : ℝ))
+      && decide (absv q.y ≤ (1e-8 : ℝ))) && decide (absv q.z ≤ (1e-8 : ℝ)))
+      = allClose0 [q.w, q.x, q.y, q.z] := by
+    simp [allClose0, List.all_cons, Bool.and_assoc]
+  rw [hcond]
+  by_cases hz : allClose0 [q.w, q.x, q.y, q.z] = true
+  · have hn : safeNorm4 q = 0 := by simp [safeNorm4, safeNormL, hz]
+    have e0 : eqZero (0 : ℝ) = true := (eqZero_iff _).mpr rfl
+    have er : eqR ((0 : ℝ)) 0 = true := (eqR_iff _ _).mpr rfl
+    simp only [Brax.normalize4, hn, e0, if_true, hz, mul_one, sub_self, mul_zero, er, zero_add]
+  · have hz' : allClose0 [q.w, q.x, q.y, q.z] = false := by simpa using hz
+    have hn : safeNorm4 q = Real.sqrt (q.w * q.w + q.x * q.x + q.y * q.y + q.z * q.z) := by
+      simp only [safeNorm4, safeNormL, hz', Bool.false_eq_true, if_false, List.foldl, HasSqrt.sqrt, zero_add]
+    simp only [Brax.normalize4, hn, hz', Bool.false_eq_true, if_false, mul_one, add_zero, sub_zero,
+      HasSqrt.sqrt]
+    by_cases hs : Real.sqrt (q.w * q.w + q.x * q.x + q.y * q.y + q.z * q.z) = 0
+    · have e0 : eqZero (Real.sqrt (q.w * q.w + q.x * q.x + q.y * q.y + q.z * q.z)) = true := (eqZero_iff _).mpr hs
+      have er : eqR (Real.sqrt (q.w * q.w + q.x * q.x + q.y * q.y + q.z * q.z)) 0 = true := (eqR_iff _ _).mpr hs
+      simp only [e0, er, if_true, mul_one]
+    · have e0 : eqZero (Real.sqrt (q.w * q.w + q.x * q.x + q.y * q.y + q.z * q.z)) = false := by
+        rw [Bool.eq_false_iff]; intro hc; exact hs ((eqZero_iff _).mp hc)
+      have er : eqR (Real.sqrt (q.w * q.w + q.x * q.x + q.y * q.y + q.z * q.z)) 0 = false := by
+        rw [Bool.eq_false_iff]; intro hc; exact hs ((eqR_iff _ _).mp hc)
+      simp only [e0, er, Bool.false_eq_true, if_false, mul_zero, add_zero]
+
+/-- `normalize` returns a unit quaternion for every input outside the `allclose(x, 0)` ball -/
+theorem normalize4_unit_of_not_small (q : Q4 ℝ) (h : allClose0 [q.w, q.x, q.y, q.z] = false) :
+    Q4.normSq (Gen.normalize4 q) = 1 := by
+  rw [bridge_normalize4]; exact normalize4_isUnit h
+
+/-- … and leaves unit quaternions unchanged -/
+theorem normalize4_of_unit (q : Q4 ℝ) (h : Q4.normSq q = 1) : Gen.normalize4 q = q := by
+  rw [bridge_normalize4]; exact normalize4_unit h
+
+/-- inside the ball `normalize` is **not** a normalisation: it divides by the guard `1e-6`
+(stated, because it is what the code does) -/
+theorem normalize4_of_small (q : Q4 ℝ) (h : allClose0 [q.w, q.x, q.y, q.z] = true) :
+    Gen.normalize4 q = ⟨q.w / 1e-6, q.x / 1e-6, q.y / 1e-6, q.z / 1e-6⟩ := by
+  rw [bridge_normalize4]
+  have hn : safeNorm4 q = 0 := by simp [safeNorm4, safeNormL, h]
+  have e0 : eqZero (0 : ℝ) = true := (eqZero_iff _).mpr rfl
+  simp only [Brax.normalize4, hn, e0, if_true, zero_add]
+
+end Normalize
 
 end Brax.C09
